@@ -356,6 +356,11 @@ def run(ctx):
             (ia, aa, oa), (ib, ab, ob) = g
             scen.append(("one multi-tag class, two values", enc_job(cl.cls(ia), oa), enc_job(cl.cls(ib), ob),
                          ref_bytes(cl.cls(ia), oa).hex(), ref_bytes(cl.cls(ib), ob).hex()))
+            # … and two readers of that class from cold: whatever a reader resolves lazily on its first
+            # use (defaults of absent tagged fields, field tables) must not be visible half-built
+            scen.append(("one multi-tag class, two readers", dec_job(cl.cls(ia), ref_bytes(cl.cls(ia), oa)),
+                         dec_job(cl.cls(ib), ref_bytes(cl.cls(ib), ob)),
+                         values.render(values.abstract(oa)), values.render(values.abstract(ob))))
     scen.append(("nested-sharing classes", enc_job(cl.cls(i2), o2), enc_job(cl.cls(i3), o3), b2.hex(), b3.hex()))
     scen.append(("reader vs writer of one class", dec_job(cl.cls(i2), b2), enc_job(cl.cls(i2), o2),
                  values.render(values.abstract(o2)), b2.hex()))
@@ -383,6 +388,11 @@ def run(ctx):
         stride = 1 if thorough else max(1, total0 // 60)
         off = rng.randrange(stride)
         points = list(range(off, total0 + 1, stride))
+        # the first *use* after creation at every single line (lazily initialised state is built
+        # there): a warm run tells how long a use is, the tail of the cold run is swept densely
+        sw = Sched([]); sw.run([ja, jb])
+        tail = min(total0, 4 * sw.steps[0] + 40, 700)
+        points = sorted(set(points) | set(range(total0 - tail, total0 + 1)))
         for k in points:
             clear_caches()
             res = Sched([(0, k if k > 0 else 1), (1, None)]).run([ja, jb])
@@ -412,7 +422,7 @@ def run(ctx):
         "rule": "histories: shuffled create/use sequences over classes sharing nested types (non-trivial: each "
                 "history); failures: OSError injected at every write/read position then reuse (non-trivial: each "
                 "position); schedules: every single-preemption point (strided in quick) and sampled two-preemption "
-                "schedules of 4 two-thread cold-cache scenarios at source-line granularity (non-trivial: each schedule)",
+                "schedules of two-thread cold-cache scenarios at source-line granularity, the first use after creation swept at every line (non-trivial: each schedule)",
         "histories": nh, "schedules": nsched, "property_failures_on_code": len(fails),
         "samples": [name for name, *_ in scen],
     })
